@@ -254,13 +254,19 @@ class FunctionRun:
         seg = "\n".join(self.modinfo.src.splitlines()[lo - 1 : hi])
         return {"file": "src/metador_core/" + self.spec.file, "qualname": self.spec.qual, "lines": [lo, hi], "sha": hashlib.sha256(seg.encode()).hexdigest()[:16]}
 
-    def explore(self):
+    def explore(self, root=None, split_depth=None):
+        """Explore all paths extending `root`. With `split_depth`, alternatives that branch off at or below that
+        depth are not explored but returned in self.deferred (subtree roots for parallel workers)."""
         spec = self.spec
-        self.pending = [[]]
+        self.pending = [list(root or [])]
+        self.deferred = []
         paths = []
         n = 0
         while self.pending:
             dec = self.pending.pop()
+            if split_depth is not None and len(dec) > max(split_depth, len(root or [])):
+                self.deferred.append(dec)
+                continue
             n += 1
             if n > self.MAX_PATHS:
                 raise Unsupported(f"more than {self.MAX_PATHS} paths")
@@ -383,15 +389,16 @@ def cvc5_check(smt2: str, tlimit_s: int):
         return "error", time.time() - t0, str(e)
 
 
-def verify_function(registry, spec, tier, prop):
-    """Explore all paths of one function, discharge every obligation. Returns a JSON-able report."""
-    timeout_ms = 10000 if tier == "quick" else 60000
-    rep = {"fn": f"{spec.file}:{spec.qual}", "status": "ok", "obligations": [], "paths": 0, "feasible_exits": 0}
+def explore_function(registry, spec, tier, prop, root=None, split_depth=None):
+    """Phase 1: explore all paths of one function; returns a JSON-able report whose obligations carry their
+    queries as SMT-LIB text (solved in phase 2 by a shared process pool)."""
+    rep = {"fn": f"{spec.file}:{spec.qual}", "status": "ok", "obligations": [], "paths": 0, "queries": [], "covers": [], "roots": []}
     t0 = time.time()
     try:
         run = FunctionRun(registry, spec, tier)
         rep["source"] = run.source_info()
-        paths = run.explore()
+        paths = run.explore(root, split_depth)
+        rep["roots"] = run.deferred
     except ContractStale as e:
         rep["status"] = "stale"
         rep["detail"] = str(e)
@@ -404,45 +411,100 @@ def verify_function(registry, spec, tier, prop):
         return rep
     rep["paths"] = len(paths)
     rep["path_summary"] = [f"{p['outcome']}:{p['exc'] or ''}@L{p['line']} d={''.join(str(int(d)) for d in p['decisions'])}" for p in paths][:200]
-    groups = {}
-    solver_s = 0.0
-    nq = 0
     for pi, p in enumerate(paths):
-        # cover: is this exit path feasible at all?
         if p["outcome"] in ("return", "raise"):
             s = z3.Solver()
-            s.set("timeout", 3000)
             for c in p["pc"]:
                 s.add(c)
-            rr = s.check()
-            if rr == z3.sat:
-                rep["feasible_exits"] += 1
-            elif rr == z3.unknown:
-                rep["unknown_exits"] = rep.get("unknown_exits", 0) + 1
+            rep["covers"].append(s.to_smt2())
         for o in p["obls"]:
             name = f"{prop}/{spec.file}:{spec.qual}/{o.name}"
-            verdict, backend, secs, model = solve_query(o.pc, o.goal, run.axioms, timeout_ms)
-            solver_s += secs
-            nq += 1
-            g = groups.setdefault(name, {"name": name, "kind": o.kind, "fn": rep["fn"], "clause": o.clause, "line": o.line, "verdict": "discharged", "backend": set(), "secs": 0.0, "queries": 0, "goal_txt": str(z3.simplify(o.goal))[:300]})
-            g["queries"] += 1
-            g["secs"] += secs
-            g["backend"].add(backend)
-            if verdict == "failed":
-                if g["verdict"] != "failed":
-                    g.update(verdict="failed", model=model, line=o.line, path=pi, goal_txt=str(z3.simplify(o.goal))[:300], solver_output="sat")
-            elif verdict == "undecided" and g["verdict"] == "discharged":
-                g.update(verdict="undecided", line=o.line, path=pi, detail=backend)
+            g = z3.simplify(o.goal)
+            q = {"name": name, "kind": o.kind, "fn": rep["fn"], "clause": o.clause, "line": o.line, "path": pi, "goal_txt": str(g)[:300]}
+            if z3.is_true(g):
+                q["trivial"] = True
+            else:
+                s = z3.Solver()
+                for c in o.pc:
+                    s.add(c)
+                s.add(z3.Not(o.goal))
+                q["smt2"] = s.to_smt2()
+            rep["queries"].append(q)
+    rep["explore_s"] = round(time.time() - t0, 2)
+    return rep
+
+
+def solve_text(args):
+    """Phase 2 worker: decide one query given as SMT-LIB text. Returns (verdict, backend, secs, model/detail)."""
+    smt2, timeout_ms = args
+    t0 = time.time()
+    try:
+        s = z3.Solver()
+        s.set("timeout", timeout_ms)
+        s.from_string(smt2)
+        r = s.check()
+    except Exception as e:  # noqa
+        return "undecided", f"z3-error:{e}", time.time() - t0, None
+    dt = time.time() - t0
+    if r == z3.unsat:
+        return "discharged", "z3-" + z3.get_version_string(), dt, None
+    if r == z3.sat:
+        return "failed", "z3-" + z3.get_version_string(), dt, model_to_str(s.model())
+    v2, dt2, out = cvc5_check(smt2, max(2, timeout_ms // 1000))
+    if v2 == "unsat":
+        return "discharged", "cvc5-1.0.3", dt + dt2, None
+    if v2 == "sat":
+        return "failed", "cvc5-1.0.3", dt + dt2, out[-1500:]
+    return "undecided", f"z3:{s.reason_unknown()};cvc5:{v2}", dt + dt2, None
+
+
+def cover_text(smt2):
+    try:
+        s = z3.Solver()
+        s.set("timeout", 3000)
+        s.from_string(smt2)
+        return str(s.check())
+    except Exception:  # noqa
+        return "unknown"
+
+
+def assemble(rep, results, cover_results):
+    """Group per-path query results into named obligations."""
+    groups = {}
+    solver_s = 0.0
+    for q, res in zip(rep.pop("queries"), results):
+        verdict, backend, secs, model = res
+        solver_s += secs
+        g = groups.setdefault(q["name"], {"name": q["name"], "kind": q["kind"], "fn": q["fn"], "clause": q["clause"], "line": q["line"], "verdict": "discharged", "backend": set(), "secs": 0.0, "queries": 0, "goal_txt": q["goal_txt"]})
+        g["queries"] += 1
+        g["secs"] += secs
+        g["backend"].add(backend)
+        if verdict == "failed":
+            if g["verdict"] != "failed":
+                g.update(verdict="failed", model=model, line=q["line"], path=q["path"], goal_txt=q["goal_txt"], solver_output="sat")
+        elif verdict == "undecided" and g["verdict"] == "discharged":
+            g.update(verdict="undecided", line=q["line"], path=q["path"], detail=backend)
     for g in groups.values():
         g["backend"] = "+".join(sorted(g["backend"]))
         g["secs"] = round(g["secs"], 3)
         rep["obligations"].append(g)
+    rep.pop("covers", None)
+    rep["feasible_exits"] = sum(1 for c in cover_results if c == "sat")
+    rep["unknown_exits"] = sum(1 for c in cover_results if c == "unknown")
     rep["solver_s"] = solver_s
-    rep["queries"] = nq
-    rep["wall_s"] = round(time.time() - t0, 2)
-    if rep["feasible_exits"] == 0 and rep.get("unknown_exits", 0) == 0:
+    rep["queries"] = len(results)
+    if rep["status"] == "ok" and cover_results and rep["feasible_exits"] == 0 and rep["unknown_exits"] == 0:
         rep["status"] = "vacuous"
     return rep
+
+
+def verify_function(registry, spec, tier, prop):
+    """Serial convenience wrapper (used by debugging scripts)."""
+    rep = explore_function(registry, spec, tier, prop)
+    timeout_ms = 10000 if tier == "quick" else 60000
+    results = [("discharged", "simplify", 0.0, None) if q.get("trivial") else solve_text((q["smt2"], timeout_ms)) for q in rep.get("queries", [])]
+    covers = [cover_text(c) for c in rep.get("covers", [])]
+    return assemble(rep, results, covers)
 
 
 # ----------------------------------------------------------------------------------------------
